@@ -90,6 +90,25 @@ def c_defines(texts):
     return d
 
 
+def vlib_tests():
+    import vlib
+    return os.path.join(vlib.REPO, "tests")
+
+
+def c_defines_pp(header, incdirs):
+    """the object-like macros of a generated header as the C preprocessor ends up with them
+    (gcc -E -dM: a redefinition replaces, an #ifndef-guarded definition yields to an earlier one);
+    None when the preprocessor cannot be run on the file"""
+    cmd = ["gcc", "-E", "-dM", "-w", "-x", "c"] + ["-I" + d for d in incdirs] + [header]
+    rc, out, err = run(cmd, timeout=60)
+    if rc != 0:
+        return None
+    d = {}
+    for m in re.finditer(r"^#define (\w+) (.+)$", out, re.M):
+        d[m.group(1)] = m.group(2).strip()
+    return d
+
+
 def c_functions(text, iface):
     """stub functions of one interface: name -> body"""
     out = {}
